@@ -95,7 +95,7 @@ def build_engine(c):
     return schema, pairs, h
 
 
-def make_request(c, schema, i, t, v):
+def make_request(c, schema, i, t, v, other=None):
     """one document supplying v for argument type t in every applicable way"""
     T = ty(t)
     vars_, sels, provided, ways = [], [], {}, {}
@@ -145,6 +145,10 @@ def make_request(c, schema, i, t, v):
     field("dlit", "s", dirs=[{"name": d, "args": [["a", v]]}]); ways["dlit"] = "same_dir"
     field("dvar", "s", dirs=[{"name": d, "args": [["a", ["var", "w"]]]}]); ways["dvar"] = "same_dir"
     field("ddef", "s", dirs=[{"name": dd, "args": []}]); ways["ddef"] = "same_dir"
+    if other is not None:
+        # two different directives on one node: each hook must receive its own arguments
+        j, tj, vj = other
+        field("dpair", "s", dirs=[{"name": d, "args": [["a", v]]}, {"name": "d%d" % j, "args": [["a", vj]]}, {"name": dd, "args": []}]); ways["dpair"] = "same_dir"
     field("sdl_dlit", "sl%d" % i); ways["sdl_dlit"] = "same_sdl_dir"
     field("sdl_ddef", "sd%d" % i); ways["sdl_ddef"] = "same_sdl_dir"
     # other ways
@@ -168,7 +172,7 @@ def make_request(c, schema, i, t, v):
         field("null_var_sdldef", ed, [["a", ["var", "nulln"]]]); ways["null_var_sdldef"] = "field_error"
     field("sib", "s"); ways["sib"] = "sibling"
     doc = {"defs": [{"k": "op", "type": "query", "name": "Q", "vars": vars_, "dirs": [], "sels": sels, "id": 999}]}
-    return {"schema": schema, "doc": doc, "variables": provided, "type": t, "value": v, "ways": ways, "index": i}
+    return {"schema": schema, "doc": doc, "variables": provided, "type": t, "value": v, "ways": ways, "index": i, "other": list(other) if other else None}
 
 
 def check(spec, h=None):
@@ -194,7 +198,7 @@ def check(spec, h=None):
     got = {p[0]: args for p, co, nid, args, ok in h.calls}
     gotd = {}
     for alias, dname, dargs in h.dargs:
-        gotd[alias] = dargs
+        gotd.setdefault(alias, {})[dname] = dargs
     data = resp.get("data")
     if data is None:
         raise Violation(spec, "whole request failed" + ctx, tag="request_failed")
@@ -232,10 +236,19 @@ def check(spec, h=None):
             if (alias,) in err_paths:
                 raise Violation(spec, "way %s: unexpected error%s" % (alias, ctx), tag="err:" + alias)
         elif way in ("same_dir", "same_sdl_dir"):
-            if alias not in gotd:
-                raise Violation(spec, "way %s: directive hook did not run%s" % (alias, ctx), tag="nohook:" + alias)
-            if canon(core.jsonable(gotd[alias])) != canon(core.jsonable(canonical)) or not c04.same_types(gotd[alias], canonical):
-                raise Violation(spec, "way %s: directive hook received %r, the specification prescribes %r%s" % (alias, gotd[alias], canonical, ctx), tag="dargs:" + alias)
+            want = {}
+            for dnode in s["dirs"] or qf[s["name"]].get("dirs") or ():
+                dn = dnode["name"]
+                if dn in ("d%d" % i, "dd%d" % i):
+                    want[dn] = canonical
+                elif spec.get("other") and dn == "d%d" % spec["other"][0]:
+                    want[dn] = {"a": coerce_literal(schema, ty(spec["other"][1]), spec["other"][2], {})}
+            for dn, exp_d in want.items():
+                got_d = (gotd.get(alias) or {}).get(dn)
+                if got_d is None:
+                    raise Violation(spec, "way %s: hook of @%s did not run%s" % (alias, dn, ctx), tag="nohook:" + alias)
+                if canon(core.jsonable(got_d)) != canon(core.jsonable(exp_d)) or not c04.same_types(got_d, exp_d):
+                    raise Violation(spec, "way %s: hook of @%s received %r, the specification prescribes %r%s" % (alias, dn, got_d, exp_d, ctx), tag="dargs:" + alias)
             if data.get(alias) != "ok":
                 raise Violation(spec, "way %s: field did not resolve%s" % (alias, ctx), tag="dres:" + alias)
         elif way == "sibling":
@@ -247,7 +260,8 @@ def check(spec, h=None):
 def case(c, stats):
     schema, pairs, h = build_engine(c)
     for i, (t, v) in enumerate(pairs):
-        spec = make_request(c, schema, i, t, v)
+        j = (i + 1) % len(pairs)
+        spec = make_request(c, schema, i, t, v, other=(j, pairs[j][0], pairs[j][1]) if j != i else None)
         spec["pairs"] = pairs
         nsame = check(spec, h)
         T = ty(t)
